@@ -126,6 +126,7 @@ def generate(rng):
     for kind in KINDS:
         content = gen_content(rng, kind, R)
         cases.append({"kind": kind, "content": content, "pre": "hardlink", "inject": None})
+        cases.append({"kind": kind, "content": content, "pre": "symlink", "inject": None})
         for pre in (True, False):
             cases.append({"kind": kind, "content": content, "pre": pre, "inject": None})
             cases.append({"kind": kind, "content": content, "pre": pre, "inject": "unencodable"})
@@ -146,6 +147,9 @@ def impl(case):
             before = open(path, "rb").read()
             if case["pre"] == "hardlink":
                 os.link(path, path + ".second-name")      # the last good copy is also known under another name
+            if case["pre"] == "symlink":
+                os.rename(path, path + ".real")           # the destination path is a symbolic link to the last good copy
+                os.symlink(path + ".real", path)
         obj = build(kind, case["content"])
         restore = None
         if case["inject"] is None:
